@@ -354,6 +354,128 @@ func TestVerifC05(t *testing.T) {
 			} else {
 				r.Inconclusive("c05: cannot map 4 GiB of zero pages for the long-slice cases")
 			}
+			// PLACEMENT of the arguments is an input dimension too: key, source and destination at every offset 0..63
+			// of a buffer (every alignment), and directly against an inaccessible page on either side. "Every key and
+			// every block" includes the ones that do not start on a 16-byte boundary or that end a mapping.
+			{
+				pool := hk.NewPool()
+				kbuf, sbuf, dbuf := make([]byte, 128), make([]byte, 128), make([]byte, 128)
+				judgePlaced := func(what string, key, src, dst []byte, d hk.D) {
+					want := ref.SM4Encrypt(key, src)
+					in := append([]byte{}, src...)
+					var blk cipher.Block
+					var err error
+					p, msg, isFault, addr := hk.Try(func() {
+						blk, err = NewCipher(key)
+						if err != nil {
+							return
+						}
+						blk.Encrypt(dst, src)
+					})
+					d["key"], d["block"] = hk.Hex(key), hk.Hex(in)
+					if p {
+						d["panic"], d["memory_fault"], d["fault_address"] = msg, isFault, fmt.Sprintf("%#x", addr)
+						r.Violation("Encrypt-fails-for-argument-placement:"+what+":"+pn, d)
+						return
+					}
+					if err != nil || !bytes.Equal(dst[:16], want) {
+						d["got"], d["want"] = hk.Hex(dst[:16]), hk.Hex(want)
+						r.Violation("Encrypt-wrong-for-argument-placement:"+what+":"+pn, d)
+						return
+					}
+					back := make([]byte, 16)
+					copy(back, dst[:16])
+					p, msg, isFault, addr = hk.Try(func() { blk.Decrypt(dst, dst) })
+					if p || !bytes.Equal(dst[:16], in) {
+						d["panic"], d["memory_fault"], d["fault_address"] = msg, isFault, fmt.Sprintf("%#x", addr)
+						r.Violation("Decrypt-wrong-for-argument-placement:"+what+":"+pn, d)
+					}
+				}
+				for off := 0; off < 64; off++ {
+					for which := 0; which < 4; which++ {
+						ko, so, do := 0, 0, 0
+						switch which {
+						case 0:
+							ko = off
+						case 1:
+							so = off
+						case 2:
+							do = off
+						default:
+							ko, so, do = off, (off*7+3)%64, (off*13+5)%64
+						}
+						copy(kbuf[ko:], rng.Bytes(16))
+						copy(sbuf[so:], rng.Bytes(16))
+						judgePlaced("offset", kbuf[ko:ko+16:ko+16], sbuf[so:so+16:so+16], dbuf[do:do+16:do+16], hk.D{"key_offset": ko, "src_offset": so, "dst_offset": do})
+					}
+					r.Eval("placement:offsets:" + pn)
+				}
+				for _, place := range []int{hk.PlaceEnd, hk.PlaceStart} {
+					for which := 0; which < 4; which++ {
+						kg, sg, dg := pool.Get(16, place), pool.Get(16, place), pool.Get(16, place)
+						key, src, dst := kg.B, sg.B, dg.B
+						if which == 0 {
+							src, dst = make([]byte, 16), make([]byte, 16)
+						} else if which == 1 {
+							key, dst = make([]byte, 16), make([]byte, 16)
+						} else if which == 2 {
+							key, src = make([]byte, 16), make([]byte, 16)
+						}
+						copy(key, rng.Bytes(16))
+						copy(src, rng.Bytes(16))
+						judgePlaced("page-edge", key, src, dst, hk.D{"placement": []string{"ends-at-inaccessible-page", "starts-after-inaccessible-page"}[place], "guarded": []string{"key", "src", "dst", "all"}[which]})
+						pool.Put(kg)
+						pool.Put(sg)
+						pool.Put(dg)
+					}
+					r.Eval("placement:page-edge:" + pn)
+				}
+				// the kernels themselves, blocks against the page edge (every width)
+				if asm && asmDetected {
+					key := rng.Bytes(16)
+					var enc, dec [32]uint32
+					expandKey(key, &enc, &dec)
+					type kern struct {
+						name  string
+						lanes int
+						f     func(rk *uint32, dst, src *byte)
+					}
+					for _, k := range []kern{{"x1", 1, cryptoBlockAsm}, {"x2", 2, cryptoBlockAsmX2}, {"x4", 4, cryptoBlockAsmX4}, {"x8", 8, cryptoBlockAsmX8}, {"x16", 16, cryptoBlockAsmX16}} {
+						for _, place := range []int{hk.PlaceEnd, hk.PlaceStart} {
+							k := k
+							sg, dg := pool.Get(16*k.lanes, place), pool.Get(16*k.lanes, place)
+							copy(sg.B, rng.Bytes(16*k.lanes))
+							exp := make([]byte, 16*k.lanes)
+							for l := 0; l < k.lanes; l++ {
+								copy(exp[16*l:], ref.SM4Encrypt(key, sg.B[16*l:16*l+16]))
+							}
+							p, msg, isFault, addr := hk.Try(func() { k.f(&enc[0], &dg.B[0], &sg.B[0]) })
+							if p || !bytes.Equal(dg.B, exp) {
+								r.Violation("kernel-"+k.name+"-fails-for-blocks-at-page-edge", hk.D{"key": hk.Hex(key), "placement": place, "panic": msg, "memory_fault": isFault, "fault_address": fmt.Sprintf("%#x", addr)})
+							}
+							var ekg *hk.GBuf
+							p, msg, isFault, addr = hk.Try(func() {
+								ekg = pool.Get(16, place)
+								copy(ekg.B, key)
+								var e2, d2 [32]uint32
+								expandKeyAsm(&ekg.B[0], &e2[0], &d2[0])
+								if e2 != enc || d2 != dec {
+									panic("schedule differs")
+								}
+							})
+							if p {
+								r.Violation("expandKeyAsm-fails-for-key-at-page-edge", hk.D{"key": hk.Hex(key), "placement": place, "panic": msg, "memory_fault": isFault, "fault_address": fmt.Sprintf("%#x", addr)})
+							}
+							if ekg != nil {
+								pool.Put(ekg)
+							}
+							pool.Put(sg)
+							pool.Put(dg)
+							r.Eval("placement:kernel-" + k.name)
+						}
+					}
+				}
+			}
 			// the ENVIRONMENT changes while ciphers are alive: the CPU feature set of the cpuid dependency (a public,
 			// mutable global) has features switched off and on again; ciphers built before, between and after
 			// must keep computing the standard permutation and its inverse
